@@ -308,7 +308,7 @@ fn check_state(store: &Entities, m: &Model, rec: &mut Rec<'_>, step: usize, diam
 }
 
 fn history(t: &mut Tape, rec: &mut Rec<'_>) {
-    let max_ops = rec.size(8, 20);
+    let max_ops = rec.size(12, 20);
     let nops = 1 + t.upto(max_ops);
     let mut model = Model::default();
     let mut store = Entities::empty();
